@@ -69,9 +69,10 @@ def headCall (c : Cfg) (now : Int) (subj : Option H) (ansInit ansTrusted : PeerA
       else
         -- initialized ⇒ networkHead returns it as updated; Head() then sets it via incomingNetworkHead and
         -- returns the local head: the new head if it was accepted (above the old one), else the old one
+        -- if it was NOT accepted the local head is still the expired one: that is an error, never a result
         let accepted := match subj with | none => true | some s => decide (h.height > s.height)
-        let subj' := if accepted then some h else subj
-        { result := subj', subj := subj', reqs := [.init] }
+        if accepted then { result := some h, subj := some h, reqs := [.init] }
+        else { result := none, subj := subj, reqs := [.init] }
     | .soft h _ =>  -- an error value accompanies the header: treated as an error of the head request
       let _ := h
       { result := none, subj := subj, reqs := [.init] }
